@@ -1,7 +1,7 @@
 (* Sem/CallsProofs.v — the theorems of property C08 about single statements: strip levels of rendered
    statements, the keyword table, raw calls of every statement form, format/goto, once-only. *)
 From Coq Require Import ZArith Lia.
-From Ford Require Import Base.Str Base.StrFacts Gen.Intrinsics Sem.Calls Sem.CallsSpec Sem.CallsStrip Sem.CallsScan Sem.CallsStmt.
+From Ford Require Import Base.Str Base.StrFacts Gen.Intrinsics Sem.Calls Sem.CallsSpec Sem.CallsDefs Sem.CallsStrip Sem.CallsScan Sem.CallsStmt.
 
 (* ------------------------------------------------------------------ keywords *)
 Lemma keywords_in_intrinsics : forall k, In k grammar_keywords -> str_in k INTRINSICS = true.
@@ -85,31 +85,9 @@ Proof.
   unfold subcall_match. rewrite E1. unfold call_kw. now rewrite E2.
 Qed.
 
-Definition seg_stmt (st : stmt) : bool :=
-  match st with SForm _ _ _ | SCall _ _ | SIfCall _ _ _ _ | SAssoc _ _ => true | _ => false end.
 
-Definition stmt_lab (st : stmt) : option str :=
-  match st with SForm l _ _ | SCall l _ | SIfCall l _ _ _ => l | _ => None end.
 
-(* the chains the model collects from a statement, in its order: the CALL target first (when
-   SUBCALL_RE applies), then the heads of every nesting level *)
-Definition stmt_chains (st : stmt) : list chain :=
-  let n := length (render_stmt st) in
-  match st with
-  | SCall None d => names_d d :: level_heads (flat_map subs_seg (stmt_segs st)) (S n)
-  | SIfCall None _ _ d => names_d d :: level_heads (flat_map subs_seg (stmt_segs st)) (S n)
-  | SForm _ _ _ | SCall _ _ | SIfCall _ _ _ _ | SAssoc _ _ =>
-    flat_map seg_heads0 (stmt_segs st) ++ level_heads (flat_map subs_seg (stmt_segs st)) n
-  | _ => []
-  end.
 
-(* where SUBCALL_RE must not see a CALL: unlabelled forms and ASSOCIATE headers *)
-Definition plain_ok (st : stmt) : bool :=
-  match st with
-  | SForm None _ _ => plain_text (sh_segs (stmt_segs st))
-  | SAssoc _ _ => plain_text (sh_segs (stmt_segs st))
-  | _ => true
-  end.
 
 Lemma wf_stmt_segs st : seg_stmt st = true -> wf_stmt st = true -> wf_segs (stmt_segs st) = true /\ stmt_segs st <> [].
 Proof.
